@@ -104,6 +104,7 @@ func UnTarIndex(ctx context.Context, fs FilesystemWriter, index Index, s Store, 
 	loop:
 		for _, c := range index.Chunks {
 			data := make(chan []byte, 1)
+			verifYield("untarindex.feeder")
 			select {
 			case <-ctx.Done():
 				interrupted = true
